@@ -805,6 +805,17 @@ def check_load(a, info):
             results = list(lightmotif.load(path, format=format_, protein=protein))
         elif a["via"] == "bytesio":
             results = list(lightmotif.load(io.BytesIO(data), format=format_, protein=protein))
+        elif a["via"] == "bytesio-positioned":
+            # an in-memory file that is not at its start: something else was read from it first. Loading starts at
+            # the current position, like reading any file object does; afterwards the object is exhausted, and
+            # loading from it again yields nothing
+            junk = b">not a motif 1 2 3\nthis part of the stream was consumed by someone else\n"
+            f = io.BytesIO(junk + data)
+            f.seek(len(junk))
+            results = list(lightmotif.load(f, format=format_, protein=protein))
+            again = list(lightmotif.load(f, format=format_, protein=protein))
+            if again:
+                raise Violation("load:exhausted-file", "%s: a second load() from the same, exhausted BytesIO returned %d motifs" % (format_, len(again)))
         else:
             # a duck-typed binary file whose read(n) returns fewer bytes than asked for before the end of the
             # data (pipes, sockets, decompressors): Python's read() contract allows that
@@ -879,7 +890,7 @@ def load_args(draw):
         # (built from a list of characters: Hypothesis' shrinker trips over a text() alphabet with non-ASCII characters)
         utext = st.lists(st.sampled_from(list("ab éèüñλμ中文ßøж")), min_size=30, max_size=90).map(lambda cs: "d" + " ".join("".join(cs).split()) + "x")
         records.append({"name": draw(word), "desc": draw(st.one_of(st.none(), word, utext)), "symbols": symbols, "cols": cols})
-    return {"format": format_, "protein": protein, "records": records, "crlf": draw(st.booleans()), "via": draw(st.sampled_from(["path", "bytesio", "short-reads"])), "piece": draw(st.sampled_from([1, 7, 100, 5000]))}
+    return {"format": format_, "protein": protein, "records": records, "crlf": draw(st.booleans()), "via": draw(st.sampled_from(["path", "bytesio", "bytesio-positioned", "short-reads"])), "piece": draw(st.sampled_from([1, 7, 100, 5000]))}
 
 
 @st.composite
@@ -922,7 +933,7 @@ SUBS = [
         revcomp_args(), check_revcomp, 200, 4000),
     Sub("two-threads", "one ScoringMatrix shared by two Python threads: the second scores a 0.2..1 M-symbol sequence with it 3..8 times (calculate releases the interpreter lock) while the first asks the same object for its reverse complement / score distribution / p-value / another calculate; every call must return, and return what it does in one thread; non-trivial = the calls did overlap the other thread's calculate",
         two_threads_args(), check_two_threads, 40, 400),
-    Sub("load", "1..5 records written in JASPAR / JASPAR 2016 / TRANSFAC / UniPROBE syntax (DNA and protein, symbol subsets, CRLF) loaded from a path, a BytesIO or a duck-typed file object whose read() returns 1 / 7 / 100 / 5000 bytes at a time; names, metadata, counts and pwm / pssm rows equal the written data pushed through the definitions; non-trivial = >= 2 records",
+    Sub("load", "1..5 records written in JASPAR / JASPAR 2016 / TRANSFAC / UniPROBE syntax (DNA and protein, symbol subsets, CRLF) loaded from a path, a BytesIO, a BytesIO positioned behind a prefix somebody else consumed (and then once more, exhausted: nothing) or a duck-typed file object whose read() returns 1 / 7 / 100 / 5000 bytes at a time; names, metadata, counts and pwm / pssm rows equal the written data pushed through the definitions; non-trivial = >= 2 records",
         load_args(), check_load, 200, 4000),
     Sub("load-malformed", "a valid generated motif file with 1..3 byte / line mutations (truncation, substitution, deletion, insertion, line removal / duplication / insertion of unknown or misplaced lines, invalid UTF-8 bytes; descriptions may hold multi-byte characters), read by lightmotif.load through a BytesIO with its own or (1 in 4) a foreign format: the call must return motifs or raise ValueError / OSError / another ordinary exception, never PanicException (C15 seen from Python); non-trivial = an exception was raised",
         load_malformed_args(), check_load_malformed, 500, 8000),
